@@ -58,6 +58,32 @@ pub fn handle(t: &[Sexp]) -> Option<String> {
             n => Some(format!("arity {}", n)),
          }
       },
+      // `mean` over a column of a NARROW numeric type (every element fits the type, the sum of the column need not): `mean_t <u8|i8|u16|i16|u32|i32> v…`
+      "mean_t" => {
+         let ty = t.get(1)?.atom()?;
+         let v = ints(&t[2..])?;
+         macro_rules! go {
+            ($T:ty) => {{
+               let w: Vec<$T> = v.iter().map(|x| <$T>::try_from(*x)).collect::<Result<_, _>>().ok()?;
+               let r: Vec<f64> = mean(w.iter().map(|x| (x,))).collect();
+               r
+            }};
+         }
+         let r = match ty {
+            "u8" => go!(u8),
+            "i8" => go!(i8),
+            "u16" => go!(u16),
+            "i16" => go!(i16),
+            "u32" => go!(u32),
+            "i32" => go!(i32),
+            _ => return None,
+         };
+         match r.len() {
+            0 => Some("none".into()),
+            1 => Some(format!("float {:?}", r[0])),
+            n => Some(format!("arity {}", n)),
+         }
+      },
       "not" => {
          let n = t.get(1)?.nat()?;
          Some(format!("{}", not(std::iter::repeat(()).take(n)).count()))
